@@ -8,6 +8,7 @@ mod gf256;
 mod guard;
 mod kernels;
 mod linear;
+mod matrix;
 mod obj;
 mod overhead;
 mod params;
@@ -55,6 +56,7 @@ fn dispatch(cmd: &str, opts: &util::Opts) {
         "kernels" => kernels::run(opts),
         "slabobs" => slabobs::run(opts),
         "linear" => linear::run(opts),
+        "matrix-replay" => matrix::replay(opts),
         "plancache-replay" => plancache::replay(opts),
         "plancache-log" => plancache::log(opts),
         "scenarios" => scn::run_all(&opts.str("out", "scn.ndjson"), opts.u64("seed", 1), &opts.str("profile", "release"), opts.thorough()),
